@@ -975,7 +975,15 @@ pub trait AutoMerge: RemoteSyncHandler {
         proof: &CommitProof,
         leaves: &[[u8; 32]],
     ) -> Option<CommitHash> {
-        let (verified, leaves) = proof.verify_leaves(leaves);
+        // An equal leaf at the proven index is not enough,
+        // the events before it must be the same too
+        let verified = proof.verify_prefix(leaves);
+        let leaves = proof
+            .indices
+            .iter()
+            .filter_map(|i| leaves.get(*i))
+            .copied()
+            .collect::<Vec<_>>();
 
         tracing::trace!(
             proof = ?proof,
